@@ -93,8 +93,37 @@ def main(argv=None):
     ctx = multiprocessing.get_context("fork")
     results = []
     if units:
-        with ctx.Pool(min(a.jobs, max(1, len(units)))) as pool:
-            results = pool.map(verify_unit, units, chunksize=1)
+        # watchdog: an in-process solver call that ignores its own timeout (seen once with z3 on a sequence VC: a worker spinning for half an
+        # hour) must not hang the check - the units that did not finish in time are run once more in fresh processes; a unit that does not
+        # finish then either is a checker error (exit 3), never a verdict
+        limit = int(os.environ.get("PYVC_UNIT_DEADLINE", "3600" if tier == "thorough" else "1500"))
+        done, pending = {}, list(range(len(units)))
+        for _attempt in (1, 2):
+            if not pending:
+                break
+            pool = ctx.Pool(min(a.jobs, max(1, len(pending))))
+            try:
+                handles = [(i, pool.apply_async(verify_unit, (units[i],))) for i in pending]
+                deadline = time.time() + limit
+                late = []
+                for i, h in handles:
+                    try:
+                        done[i] = h.get(timeout=max(1.0, deadline - time.time()))
+                    except multiprocessing.TimeoutError:
+                        late.append(i)
+            finally:
+                pool.terminate()
+                pool.join()
+            if late:
+                print("note: %d unit(s) did not finish within %d s (%s); running them again in fresh processes" % (
+                    len(late), limit, ", ".join(str(units[i][1])[:80] for i in late)))
+            pending = late
+        if pending:
+            print("checker error: unit(s) did not terminate: %s" % ", ".join(str(units[i][1])[:120] for i in pending))
+            if bounded_proc is not None:
+                bounded_proc.kill()
+            return 3
+        results = [done[i] for i in range(len(units))]
 
     vcs = [dict(v, unit=r["unit"]) for r in results for v in r["vcs"]]
     by_name = {}
